@@ -32,9 +32,10 @@ HCSCHED = os.path.join(SCHED_TARGET, "release", "hcsched")
 MARK = "// VERIF"
 
 SPEC = {
-    "lean_modules": ["Honeycomb.Props.C07", "Honeycomb.Props.C07B"],
+    "lean_modules": ["Honeycomb.Props.C07", "Honeycomb.Props.C07B", "Honeycomb.Props.C07Live"],
     "required_theorems": ["C07_serializable", "C07_only_valid_commits_publish", "T3_validated_commit",
-                          "C07_serializable_B", "C07_locks_exclusive_B"],
+                          "C07_serializable_B", "C07_locks_exclusive_B", "C07_no_deadlock_B", "C07_serializable_sorted",
+                          "C07_commit_step_is_effective"],
     "trusted_base": [
         "Lean 4.33 kernel; axioms propext, Classical.choice, Quot.sound only",
         "protocol models of fast-stm: Honeycomb/Model/StmProto.lean (per-variable versions, logged first reads, commit = one atomic "
@@ -69,7 +70,11 @@ SPEC = {
     "not_proved": [
         "lock granularity (Model/StmProtoB.lean, theorem C07_serializable_B) IS proved for the model in which commit() takes the locks "
         "one variable at a time, validates each variable under its lock, blocks on incompatible locks, and finally publishes in one "
-        "step; NOT proved: absence of deadlock (needs the address order of lock acquisition, left arbitrary in the model), the "
+        "step, for EVERY order of lock acquisition that loses no variable; absence of deadlock IS proved (Props/C07Live.lean, "
+        "C07_no_deadlock_B) for the instance of the model that locks in a fixed global order (variables sorted along an injective rank = "
+        "the BTreeMap<address> walk of the real commit): in every reachable state with an unfinished thread some unfinished thread is not "
+        "waiting for a lock; the same two programs deadlock under per-thread log order (decide example). NOT proved: termination of "
+        "the retry loop under a fair scheduler (livelock), parking_lot's queueing policy (a reader queued behind a waiting writer), the "
         "per-variable stores of the final publish step (one step in the model: every written variable is exclusively locked meanwhile), "
         "memory ordering, wait_for_change",
         "the premise that operations touch shared memory only through Transaction::read/write is a fact about the code, not a theorem: "
@@ -585,7 +590,7 @@ def scenarios(tier, seed):
     big = {"preempt": 1, "cap": 5000, "random": 300, "pct": 300} if quick else {"preempt": 2, "cap": 50000, "random": 3000, "pct": 3000}
     scs += random_scenarios(rng, 12 if quick else 100, nthreads=(3, 4), params=big, prefix="rnd-mt")
     scs += random_scenarios(rng, 4 if quick else 40, nthreads=(3,), params=big, mask=31, prefix="rnd3d-mt", dim=3)
-    scs += remesh_random(rng, 24 if quick else 200, params=rp)
+    scs += remesh_random(rng, 24 if quick else 100, params={} if quick else {"cap": 100000})
     if not quick:
         # the hand-written scenarios again with long random / PCT tails
         for s in rmw_scenarios() + link_scenarios() + query_scenarios() + fan_scenarios() + three_d_scenarios() + d4_scenarios() + d3_scenarios() \
